@@ -949,6 +949,7 @@ proof fn lemma_e_str_intro(vs: Seq<TypeVariable>, e: Expression, l: bool, p: boo
 }
 
 /// ids collected per `if` branch are nodes of the graph
+spec fn ids_below(xs: Seq<TyID>, n: int) -> bool { forall|k: int| 0 <= k < xs.len() ==> (#[trigger] xs[k]).0 < n }
 spec fn tys_valid(tys: Seq<(&Span, Option<TyID>, Option<TyID>)>, n: int) -> bool {
     forall|k: int| 0 <= k < tys.len() ==> ((#[trigger] tys[k]).1 is Some ==> (tys[k].1->Some_0.0 as int) < n) && (tys[k].2 is Some ==> (tys[k].2->Some_0.0 as int) < n)
 }
@@ -1039,6 +1040,10 @@ macro_rules! format { ($($t:tt)*) => { opaque_string() }; }
 proof fn axiom_tyid_pair_key_order() ensures vstd::std_specs::btree::key_obeys_cmp_spec::<(TyID, TyID)>() {}
 #[verifier::external_body]
 proof fn axiom_string_key_order() ensures vstd::std_specs::btree::key_obeys_cmp_spec::<String>() {}
+/// assumption A-hash-string: Hash and Eq of String are a lawful hash-table key (what vstd's HashMap
+/// specification asks of a key type; vstd provides this axiom for the primitive types only)
+#[verifier::external_body]
+proof fn axiom_string_hash_key() ensures vstd::std_specs::hash::obeys_key_model::<String>() {}
 
 /// two known types that can never be unified: different head constructors, tuples of different
 /// length, functions of different arity or with clashing purity, different extern blobs
@@ -1963,12 +1968,56 @@ impl TypeChecker {
 
 //@ fn sylt-compiler/src/typechecker.rs outer_statement
 //@   in TypeChecker
-//@   mode assumed
+//@   props C02 C07
+//@   attr #[verifier::loop_isolation(false)]
 //@   ret r
+//@   rewrite rule:D-timed
+//@- let _handle =
+//@-     sylt_macro::timed_handle!("typecheck::outer_statement", line = span.line_start);
+//@+ let _handle = ();
+//@   why profiling handle, compiled to () without the `timed` feature
+//@   endrewrite
 //@   spec
-        requires old(self).inv2(),
-        ensures final(self).inv2(), final(self).grows(old(self)),
+        requires old(self).inv2(), //# C07 outer_statement.pre.inv
+            os_ok(*statement, old(self).variables@.len() as int), //# C07 outer_statement.pre.top_level_statement_is_a_declaration_or_definition
+        ensures final(self).inv2(), final(self).grows(old(self)), //# C02,C07 outer_statement.keeps_invariant
 //@   endspec
+//@   ghost entry
+        broadcast use vstd::std_specs::hash::group_hash_axioms;
+        proof { axiom_string_key_order(); axiom_string_hash_key(); }
+//@   endghost
+//@   loop 1
+                    invariant self.inv2(), self.grows(old(self)), //# C02,C07 outer_statement.loop1.aux1
+                        ids_below(type_params@, self.types@.len() as int), //# C07 outer_statement.loop1.aux2
+//@   endloop
+//@   loop 2
+                    invariant self.inv2(), self.grows(old(self)), //# C02,C07 outer_statement.loop2.aux1
+                        ids_below(type_params@, self.types@.len() as int), //# C07 outer_statement.loop2.aux2
+                        fields_in_range(resolved_variants, self.types@.len() as int), //# C07 outer_statement.loop2.aux3
+                        vstd::std_specs::btree::key_obeys_cmp_spec::<String>(), //# C07 outer_statement.loop2.aux4
+//@   endloop
+//@   loop 3
+                    invariant self.inv2(), self.grows(old(self)), //# C02,C07 outer_statement.loop3.aux1
+                        ids_below(type_params@, self.types@.len() as int), //# C07 outer_statement.loop3.aux2
+//@   endloop
+//@   loop 4
+                    invariant self.inv2(), self.grows(old(self)), //# C02,C07 outer_statement.loop4.aux1
+                        ids_below(type_params@, self.types@.len() as int), //# C07 outer_statement.loop4.aux2
+                        fields_in_range(resolved_fields, self.types@.len() as int), //# C07 outer_statement.loop4.aux3
+                        vstd::std_specs::btree::key_obeys_cmp_spec::<String>(), //# C07 outer_statement.loop4.aux4
+//@   endloop
+//@   ghost before
+//@| let enum_ty = self.variables[*var].ty;
+                proof { lemma_var_valid(self, *var as int); }
+//@   endghost
+//@   ghost before
+//@| let blob_ty = self.variables[*var].ty;
+                proof { lemma_var_valid(self, *var as int); }
+//@   endghost
+//@   ghost before
+//@| self.unify(*span, ctx, self.variables[*var].ty, ty)?;
+                proof { lemma_var_valid(self, *var as int); }
+//@   endghost
 //@ end
 
 //@ fn sylt-compiler/src/typechecker.rs solve
@@ -2005,12 +2054,16 @@ impl TypeChecker {
 //@   endrewrite
 //@   spec
         requires old(self).inv2(), //# C07 solve.spec.aux1
+            forall|i: int| 0 <= i < statements@.len() ==> os_ok(#[trigger] statements@[i], old(self).variables@.len() as int), //# C07 solve.pre.top_level_statements_are_declarations_or_definitions
             start_var is Some ==> (start_var->Some_0.id as int) < old(self).variables@.len(), //# C07 solve.pre.start_id_in_range
         ensures
             start_var is None ==> r is Err, //# C05,C07 solve.program_without_start_is_rejected
 //@   endspec
-//@   loop 1
+//@   loop 1 binder it
             invariant self.inv2(), self.grows(old(self)), //# C07 solve.loop1.aux1
+                it.seq().len() == statements@.len(), //# - solve.loop1.aux2
+                forall|k: int| 0 <= k < statements@.len() ==> *(#[trigger] it.seq()[k]) == statements@[k], //# - solve.loop1.aux3
+                forall|i: int| 0 <= i < statements@.len() ==> os_ok(#[trigger] statements@[i], self.variables@.len() as int), //# C07 solve.loop1.aux4
 //@   endloop
 //@   ghost before
 //@| let ty = self.variables[var.id].ty;
@@ -2020,11 +2073,11 @@ impl TypeChecker {
 
 //@ fn sylt-compiler/src/typechecker.rs resolve_type
 //@   in TypeChecker
-//@   mode assumed
+//@   props C02 C07
 //@   ret r
 //@   spec
-        requires old(self).inv2(),
-        ensures final(self).inv2(), final(self).grows(old(self)), r is Ok ==> final(self).valid(r->Ok_0),
+        requires old(self).inv2(), //# C07 resolve_type.pre.inv
+        ensures final(self).inv2(), final(self).grows(old(self)), r is Ok ==> final(self).valid(r->Ok_0), //# C02,C07 resolve_type.keeps_invariant
 //@   endspec
 //@ end
 //@ fn sylt-compiler/src/typechecker.rs inner_resolve_type
